@@ -97,7 +97,12 @@ Definition run_book (b : book) (vec : bool) : book :=
                end) false.
 
 Definition mstate := (heap * book)%type.
-Definition mstep (d : nat) (r : id) (s : mstate) (o : mop) : mstate * mout :=
+(* One-line switch.  false = the code as it is (bookkeeping written onto `self`).  true = the proposed repair
+   /verif/fixes/proposed_fix_C14_state_carry.diff: with in_place=False the bookkeeping is read from and written to the deep
+   copy `net`, `self` keeps the bookkeeping it had.  harness/c14.py reads this line (or VERIF_C14_FIXED=1). *)
+Definition fixed_state_carry : bool := false.
+
+Definition mstep_gen (fixed : bool) (d : nat) (r : id) (s : mstate) (o : mop) : mstate * mout :=
   let '(h, b) := s in
   match o with
   | MRead q => (s, read d r h q)
@@ -109,9 +114,9 @@ Definition mstep (d : nat) (r : id) (s : mstate) (o : mop) : mstate * mout :=
     | _ => (s, RDone)
     end
   | MNewObject o => ((h ++ [o], b), RDone)
-  | MCompile _ vec => ((deepcopy_heap d r h, compile_book b vec), RCompile (compile_out b vec))
-  | MRun vec => ((deepcopy_heap d r h, run_book b vec), RRun (negb (si b)))
-  | MObserve => ((deepcopy_heap d r h, b), RObs (observe d r h []))
+  | MCompile _ vec => ((deepcopy_heap d r h, if fixed then b else compile_book b vec), RCompile (compile_out b vec))
+  | MRun vec => ((deepcopy_heap d r h, if fixed then b else run_book b vec), RRun (negb (si b)))
+  | MObserve => ((deepcopy_heap d r h, b), RObs (observe d r h [] []))
   end.
 Definition mstepS (d : nat) (t : atree) (o : mop) : mout :=
   match o with
@@ -119,13 +124,15 @@ Definition mstepS (d : nat) (t : atree) (o : mop) : mout :=
   | MToYaml | MDeepcopy | MUpdateTemplate _ | MNewObject _ => RDone
   | MCompile _ _ => RCompile YDeclared
   | MRun _ => RRun true
-  | MObserve => RObs (tobserve d t [])
+  | MObserve => RObs (tobserve d t [] [])
   end.
-Fixpoint mrun (d : nat) (r : id) (s : mstate) (ops : list mop) : mstate * list mout :=
+Fixpoint mrun_gen (fixed : bool) (d : nat) (r : id) (s : mstate) (ops : list mop) : mstate * list mout :=
   match ops with
   | [] => (s, [])
-  | o :: rest => let '(s1, out) := mstep d r s o in let '(s2, outs) := mrun d r s1 rest in (s2, out :: outs)
+  | o :: rest => let '(s1, out) := mstep_gen fixed d r s o in let '(s2, outs) := mrun_gen fixed d r s1 rest in (s2, out :: outs)
   end.
+Definition mstep := mstep_gen false.     (* the code as it is *)
+Definition mrun := mrun_gen false.
 
 (* guard: no bookkeeping written by an earlier call is read by a later one *)
 Fixpoint carry_free (seen_run : bool) (seen_c : option bool) (ops : list mop) : bool :=
